@@ -458,6 +458,9 @@ func (x *X) havocLoop(fr *Frame, li *loopInfo, head, pre *State) {
 			}
 			x.callCountKey(cn)
 			for _, p := range f.Params {
+				if p.Name() == "_" || p.Name() == "" {
+					continue
+				}
 				x.callTraceKey(cn, "arg", p.Name(), x.enc.sortOf(p.Type()), p.Type())
 			}
 			for i := 0; i < f.Signature.Results().Len(); i++ {
